@@ -100,3 +100,68 @@ def x01(tier: str) -> int:
     for r in recs[5:8]:
         v.sample({'op': r.get('op'), 'res': r.get('res')})
     return v.finish()
+
+
+U1, U2, U3 = 'http://a/1', 'https://b/1', 'http://c/2'
+
+
+def download_history(rng: random.Random, n: int) -> list:
+    urls = [U1, U2, U3]
+    beh = [['ok', 'g1'], ['ok', 'g2'], ['ok', 'bad'], ['status'], ['unreachable'], ['drop']]
+    args = ['p', 'p:1', 'p:2', 'p:3', 'p:9', 'p:*', 'p:', 'q', 'q:1', 'r', 'r:1', 'zz', U1, U2, U3]
+    ops = [['init', {u: rng.choice(beh) for u in urls}]]
+    for _ in range(n):
+        k = rng.random()
+        if k < 0.3:
+            ops.append(['server', rng.choice(urls), rng.choice(beh)])
+        elif k < 0.4:
+            ops.append(['evict', rng.choice(urls)])
+        else:
+            ops.append(['call', rng.choice(args), rng.random() < 0.5])
+    return ops
+
+
+def x02(tier: str) -> int:
+    v = Verdict('X02', tier)
+    thorough = tier == 'thorough'
+    v.assumptions = [
+        'not one of the listed properties: wn.download() as the specification describes it - cached '
+        'file first, mirrors in order, a transport failure moves on and leaves no file, an HTTP status '
+        'ends the call, a file that cannot be added stays cached',
+        'the network is httpx.MockTransport scripted by the harness; httpx.Client is replaced in the '
+        'driver process only (no change to wn)',
+        'cache files are recognised by the harness\'s own blake2b/20 of the url and by their bytes']
+    v.add_model(f'MC_Download (3 urls, 6 server behaviours, depth {7 if thorough else 5})',
+                tlc_model('MC_Download', cfg='MC_Download7.cfg' if thorough else 'MC_Download.cfg'))
+    nwalk = 600 if thorough else 60
+    sim = run_tlc('MC_DownloadWalk', workers=1, simulate=f'num={nwalk}',
+                  extra=['-depth', '30', '-seed', str(seed() + 102)], timeout=1800)
+    walks = [w for w in sim.printed() if isinstance(w, list) and w and isinstance(w[0], dict)]
+    if sim.rc != 0 or len(walks) < nwalk // 2:
+        raise MachineryError('TLC -simulate produced no behaviours:\n' + sim.out[-2000:])
+    v.cov['tlc_simulated_behaviours'] = len(walks)
+    rng = random.Random(seed() + 102)
+    jobs = [{'ops': [st['op'] for st in w], 'exp': w} for w in walks]
+    jobs += [{'ops': download_history(rng, 25)} for _ in range(800 if thorough else 60)]
+    res = run_driver('drv_download.py', jobs, timeout=3000)
+    recs = []
+    for j, r in zip(jobs, res):
+        if r is None or 'recs' not in r:
+            recs.append({'timeout': True, 'op': ['?']})
+            continue
+        for k, rec in enumerate(r['recs']):
+            if 'exp' in j:
+                e = j['exp'][k]
+                rec['exp'] = {'res': e['res'], 'reqs': e['reqs'], 'cache': e['cache'], 'db': e['db']}
+            recs.append(rec)
+    for k, r in enumerate(recs, 1):
+        r['id'] = k
+    j = tlc_judge('Judge_Download', recs, cfg='Judge.cfg', shards=NCPU)
+    v.add_judgement('Judge_Download', j, {r['id']: r for r in recs},
+                    nontrivial=sum(1 for r in recs if r.get('reqs')))
+    v.cov['rule'] = ('behaviours simulated by TLC from MC_DownloadWalk replayed on wn.download() over a '
+                     'scripted transport, plus random histories; every step judged against WnDownload; '
+                     'non-trivial = the call made at least one request')
+    for r in recs[3:6]:
+        v.sample({'op': r.get('op'), 'res': r.get('res'), 'reqs': r.get('reqs')})
+    return v.finish()
